@@ -135,7 +135,7 @@ func (g *Gen) quoted() string {
 func (g *Gen) arg() string {
 	r := g.R
 	if g.weird(10, 14) {
-		return g.pick([]string{"{", "}", "}", `\`, "$()", `"{`, "\"", "{env:", "$(", "x$(m1"})
+		return g.pick([]string{"{", "}", "}", `\`, "$()", `"{`, "\"", "{env:", "$(", "x$(m1", "$($)", "$(m$1)", `"$( )"`})
 	}
 	switch x := r.Intn(100); {
 	case x < 45:
@@ -161,7 +161,8 @@ func (g *Gen) arg() string {
 		}
 		return `"}x"`
 	case x < 92:
-		return "x$()"
+		// references with unusual names: whole arguments (always a reference) and inside a string
+		return g.pick([]string{"x$()", "$()", "$($)", "$(m$1)", "x$(m$1)", `"$(m 1)"`, `"x$(m 1)"`})
 	case x < 93:
 		// the same reference several times, nested and overlapping forms
 		m := g.pick(MacroNames)
